@@ -27,7 +27,7 @@ var properties = map[string]*propDef{
 		NotDecided:  "floating-point error of the sum of Num/Denom against exact rationals (needs values); absence of uint32 overflow (excluded below 2^28 by the quantifier); gomidi's delta encoding.",
 	},
 	"C03": {
-		Rules:     []string{"TAB-KEYSIG", "TAB-NOTE", "TAB-DEGREE", "TAB-SEARCH", "SCALEWIRE"},
+		Rules:     []string{"TAB-KEYSIG", "TAB-NOTE", "TAB-DEGREE", "TAB-SEARCH", "SCALEWIRE", "ERRFLOW", "ERRDROP"},
 		Technique: techTab + " (narrow claim: preconditions only)",
 		Explanation: "only the table preconditions of the conversion: in all 28 signature rows the tonic built by NewScale carries the key's own accidental; letter pitches, accidental offsets and interval sizes are right; both quality-search lists contain major/perfect, minor/diminished and augmented (what the seven diatonic notes and tritone basses need); Tendency folds to the documented result on all 16 input pairs; NewScale applies a row as sharp/flat/natural correctly.",
 		NotDecided:  "the search in ScaleNote.GetDegree and the letter distance in Name.GetDegree over the 12,936-case product: that is an enumeration over runtime values, nothing sound can be said about it statically with the tools in reach. Most signature-row corruptions do not affect this property at all (only the tonic's accidental matters); they are C13's business.",
